@@ -178,7 +178,7 @@ int __wrap_getentropy(void *buf, size_t len)
 		if (n->efail_errno) errno = n->efail_errno;
 		return -1;
 	}
-	if (n->efail_fired && !n->efail_next_seen) { n->efail_next_seen = 1; n->efail_retried = len == n->efail_len; }
+	if (n->efail_fired && !n->efail_next_seen) { n->efail_next_seen = 1; n->efail_retried = len == n->efail_len; n->efail_next_ok_step = g_sim.step ? g_sim.step : 1; }
 	rng_bytes(&n->ent, buf, len);
 	n->ent_bytes += len;
 	if (n->ndrawbytes < 160 && len <= 48) {
